@@ -37,6 +37,8 @@ type verifPacket struct {
 	dport      uint16
 	outIf, inIf uint8 // 0 lo, 1 eth0, 2 eth1
 	uid, gid   uint32
+	v6         bool // evaluate address matches on the 128-bit fields
+	src6, dst6 [2]uint64
 }
 
 type verifRule struct {
@@ -111,6 +113,61 @@ func verifParseCIDR(s string) (uint32, uint32) {
 	return a & mask, mask
 }
 
+// verifParseCIDR6 parses an IPv6 prefix (hex groups with at most one "::") into (address&mask, mask) as two 64-bit halves.
+func verifParseCIDR6(s string) ([2]uint64, [2]uint64) {
+	ip, bitsS, ok := strings.Cut(s, "/")
+	bits := 128
+	if ok {
+		b, err := strconv.Atoi(bitsS)
+		if err != nil {
+			panic("bad cidr " + s)
+		}
+		bits = b
+	}
+	if !strings.Contains(ip, ":") {
+		panic("not ipv6: " + s)
+	}
+	head, tail, compressed := strings.Cut(ip, "::")
+	groups := func(x string) []uint64 {
+		if x == "" {
+			return nil
+		}
+		var out []uint64
+		for _, g := range strings.Split(x, ":") {
+			n, err := strconv.ParseUint(g, 16, 16)
+			if err != nil {
+				panic("bad ipv6 group in " + s)
+			}
+			out = append(out, n)
+		}
+		return out
+	}
+	h, t := groups(head), groups(tail)
+	if !compressed && len(h) != 8 || len(h)+len(t) > 8 {
+		panic("bad ipv6 " + s)
+	}
+	var g [8]uint64
+	copy(g[:], h)
+	copy(g[8-len(t):], t)
+	var a [2]uint64
+	for i := 0; i < 4; i++ {
+		a[0] = a[0]<<16 | g[i]
+		a[1] = a[1]<<16 | g[4+i]
+	}
+	var mask [2]uint64
+	switch {
+	case bits >= 128:
+		mask = [2]uint64{^uint64(0), ^uint64(0)}
+	case bits > 64:
+		mask = [2]uint64{^uint64(0), ^uint64(0) << (128 - uint(bits))}
+	case bits == 64:
+		mask = [2]uint64{^uint64(0), 0}
+	case bits > 0:
+		mask = [2]uint64{^uint64(0) << (64 - uint(bits)), 0}
+	}
+	return [2]uint64{a[0] & mask[0], a[1] & mask[1]}, mask
+}
+
 func verifIfIndex(name string) uint8 {
 	switch name {
 	case "lo":
@@ -166,11 +223,21 @@ func verifMatch(args []string, p *verifPacket) (bool, string, string) {
 				panic("proto " + proto)
 			}
 		case "-d":
-			n, mask := verifParseCIDR(take())
-			cond = p.dst&mask == n
+			if p.v6 {
+				n, mask := verifParseCIDR6(take())
+				cond = vp.And(p.dst6[0]&mask[0] == n[0], p.dst6[1]&mask[1] == n[1])
+			} else {
+				n, mask := verifParseCIDR(take())
+				cond = p.dst&mask == n
+			}
 		case "-s":
-			n, mask := verifParseCIDR(take())
-			cond = p.src&mask == n
+			if p.v6 {
+				n, mask := verifParseCIDR6(take())
+				cond = vp.And(p.src6[0]&mask[0] == n[0], p.src6[1]&mask[1] == n[1])
+			} else {
+				n, mask := verifParseCIDR(take())
+				cond = p.src&mask == n
+			}
 		case "--dport":
 			n, err := strconv.Atoi(take())
 			if err != nil {
@@ -204,7 +271,7 @@ func verifMatch(args []string, p *verifPacket) (bool, string, string) {
 		case "-j":
 			target = take()
 			isCond = false
-		case "--to-ports":
+		case "--to-ports", "--to-port":
 			targ = take()
 			isCond = false
 		default:
@@ -295,19 +362,34 @@ func verifConfig() *config.Config {
 	if vp.Tier() == 0 {
 		nIncl, nExcl = 3, 2
 	}
+	return verifConfigWith(verifIncludeRanges[vp.Choice("outboundIPRangesInclude", nIncl)], verifExcludeRanges[vp.Choice("outboundIPRangesExclude", nExcl)])
+}
+
+// verifReduced: quick-tier harnesses that build several rule sets per path keep the inbound and outbound-port-inclusion
+// options (which do not interact with what they check) at their first value
+var verifReduced = false
+
+func verifPick(name string, n int) int {
+	if verifReduced && vp.Tier() == 0 {
+		return 0
+	}
+	return vp.Choice(name, n)
+}
+
+func verifConfigWith(include, exclude string) *config.Config {
 	return &config.Config{
 		ProxyPort: "15001", InboundCapturePort: "15006", InboundTunnelPort: "15008",
 		ProxyUID:                verifUIDs[vp.Choice("proxyUID", len(verifUIDs))],
 		ProxyGID:                "1337",
 		InboundInterceptionMode: "REDIRECT",
 		InboundTProxyMark:       "1337",
-		InboundPortsInclude:     verifInPortsIncl[vp.Choice("inboundPortsInclude", len(verifInPortsIncl))],
-		InboundPortsExclude:     verifInPortsExcl[vp.Choice("inboundPortsExclude", len(verifInPortsExcl))],
+		InboundPortsInclude:     verifInPortsIncl[verifPick("inboundPortsInclude", len(verifInPortsIncl))],
+		InboundPortsExclude:     verifInPortsExcl[verifPick("inboundPortsExclude", len(verifInPortsExcl))],
 		OwnerGroupsInclude:      "*",
-		OutboundPortsInclude:    verifOutPortsIncl[vp.Choice("outboundPortsInclude", len(verifOutPortsIncl))],
+		OutboundPortsInclude:    verifOutPortsIncl[verifPick("outboundPortsInclude", len(verifOutPortsIncl))],
 		OutboundPortsExclude:    verifOutPortsExcl[vp.Choice("outboundPortsExclude", 2+vp.Tier())],
-		OutboundIPRangesInclude: verifIncludeRanges[vp.Choice("outboundIPRangesInclude", nIncl)],
-		OutboundIPRangesExclude: verifExcludeRanges[vp.Choice("outboundIPRangesExclude", nExcl)],
+		OutboundIPRangesInclude: include,
+		OutboundIPRangesExclude: exclude,
 		ExcludeInterfaces:       verifExcludeIf[vp.Choice("excludeInterfaces", len(verifExcludeIf))],
 		HostIPv4LoopbackCidr:    "127.0.0.1/32",
 	}
@@ -392,6 +474,120 @@ func VerifC20CaptureRules() {
 	wantIn := vp.And3(p.tcp, vp.And(inIncluded, !inExcluded), vp.And(p.dport != 15008, !inIfExcluded))
 	vp.Assert(vp.And(termIn, portIn == 15006) == wantIn, "inbound-tcp-captured-iff-port-included-and-not-excluded")
 	vp.Assert(vp.Implies(termIn, portIn == 15006), "inbound-only-ever-redirected-to-the-inbound-port")
+}
+
+// "Rules for IPv4 and IPv6 express the same policy": for a dual-stack configuration whose address options come in
+// corresponding IPv4/IPv6 pairs, an IPv4 packet and an IPv6 packet that agree on everything but the address family
+// (and fall into corresponding ranges) get the same verdict from the two rule sets, in OUTPUT and in PREROUTING.
+var (
+	verifDualInclude = [][2]string{{"*", "*"}, {"", ""}, {"10.0.0.0/8", "fd00::/8"}}
+	verifDualExclude = [][2]string{{"", ""}, {"10.1.0.0/16", "fd01::/16"}}
+)
+
+func verifJoin(a, b string) string {
+	if a == "" || a == "*" {
+		return a
+	}
+	return a + "," + b
+}
+
+func VerifC20IPv6Parity() {
+	incl := verifDualInclude[vp.Choice("dual.include", len(verifDualInclude))]
+	excl := verifDualExclude[vp.Choice("dual.exclude", len(verifDualExclude))]
+	cfg := verifConfigWith(verifJoin(incl[0], incl[1]), verifJoin(excl[0], excl[1]))
+	cfg.EnableIPv6 = true
+	c := &IptablesConfigurator{ruleBuilder: builder.NewIptablesRuleBuilder(cfg), ext: verifDeps{}, cfg: cfg}
+	if err := c.Run(); err != nil {
+		vp.Unreachable("configuration-of-the-menu-is-accepted")
+	}
+	t4 := verifLoadTable(c.ruleBuilder.BuildV4(), "nat")
+	t6 := verifLoadTable(c.ruleBuilder.BuildV6(), "nat")
+	vp.Reach("rules-built")
+	p4 := verifPacketSym()
+	p6 := *p4
+	p6.v6 = true
+	p6.src6 = [2]uint64{vp.Uint64("pkt6.srcHi"), vp.Uint64("pkt6.srcLo")}
+	p6.dst6 = [2]uint64{vp.Uint64("pkt6.dstHi"), vp.Uint64("pkt6.dstLo")}
+	in6 := func(cidr string, a [2]uint64) bool {
+		n, mask := verifParseCIDR6(cidr)
+		return vp.And(a[0]&mask[0] == n[0], a[1]&mask[1] == n[1])
+	}
+	in4 := func(cidr string, a uint32) bool {
+		n, mask := verifParseCIDR(cidr)
+		return a&mask == n
+	}
+	// corresponding packets: same class with respect to every address the two rule sets can mention
+	vp.Assume(in4("127.0.0.1/32", p4.dst) == in6("::1/128", p6.dst6))
+	vp.Assume(in4("127.0.0.1/32", p4.src) == in6("::1/128", p6.src6))
+	vp.Assume(in4("127.0.0.6/32", p4.src) == in6("::6/128", p6.src6))
+	vp.Assume(in4("127.0.0.6/32", p4.dst) == in6("::6/128", p6.dst6))
+	for _, pr := range [][2]string{incl, excl} {
+		if pr[0] != "" && pr[0] != "*" {
+			vp.Assume(in4(pr[0], p4.dst) == in6(pr[1], p6.dst6))
+		}
+	}
+	a4, port4 := verifEval(t4, "OUTPUT", p4, 0)
+	a6, port6 := verifEval(t6, "OUTPUT", &p6, 0)
+	vp.Assert(a4 == a6, "ipv4-and-ipv6-agree-on-capturing-outbound")
+	vp.Assert(vp.Implies(vp.And(a4, a6), port4 == port6), "ipv4-and-ipv6-redirect-outbound-to-the-same-port")
+	b4, q4 := verifEval(t4, "PREROUTING", p4, 0)
+	b6, q6 := verifEval(t6, "PREROUTING", &p6, 0)
+	vp.Assert(b4 == b6, "ipv4-and-ipv6-agree-on-capturing-inbound")
+	vp.Assert(vp.Implies(vp.And(b4, b6), q4 == q6), "ipv4-and-ipv6-redirect-inbound-to-the-same-port")
+}
+
+// DNS capture (nat table): application DNS (udp and tcp port 53) goes to the agent's DNS port iff it is addressed to a
+// captured server (or all DNS is captured); the proxy's own DNS never does (no loop); everything that is not port 53
+// is decided exactly as without DNS capture.
+func VerifC20DNSCapture() {
+	verifReduced = true
+	cfg := verifConfig()
+	cfg.RedirectDNS = true
+	cfg.CaptureAllDNS = vp.Choice("captureAllDNS", 2) == 1
+	if !cfg.CaptureAllDNS {
+		cfg.DNSServersV4 = []string{"10.96.0.10"}
+	}
+	c := &IptablesConfigurator{ruleBuilder: builder.NewIptablesRuleBuilder(cfg), ext: verifDeps{}, cfg: cfg}
+	if err := c.Run(); err != nil {
+		vp.Unreachable("configuration-of-the-menu-is-accepted")
+	}
+	table := verifLoadTable(c.ruleBuilder.BuildV4(), "nat")
+	// the same configuration without DNS capture
+	cfg0 := *cfg
+	cfg0.RedirectDNS, cfg0.CaptureAllDNS, cfg0.DNSServersV4 = false, false, nil
+	c0 := &IptablesConfigurator{ruleBuilder: builder.NewIptablesRuleBuilder(&cfg0), ext: verifDeps{}, cfg: &cfg0}
+	if err := c0.Run(); err != nil {
+		vp.Unreachable("configuration-of-the-menu-is-accepted")
+	}
+	table0 := verifLoadTable(c0.ruleBuilder.BuildV4(), "nat")
+	p := verifPacketSym()
+	vp.Reach("rules-built")
+
+	proxyOwned := vp.Or(verifInList(cfg.ProxyUID, p.uid), verifInList(cfg.ProxyGID, p.gid))
+	outIfExcluded := vp.And(cfg.ExcludeInterfaces != "", p.outIf == 2)
+	term, port := verifEval(table, "OUTPUT", p, 0)
+	toDNS := vp.And(term, port == 15053)
+	isDNS := p.dport == 53
+	vp.Assert(vp.Implies(proxyOwned, !toDNS), "proxy-dns-is-never-captured")
+	vp.Assert(vp.Implies(toDNS, isDNS), "only-port-53-goes-to-the-dns-port")
+	server := cfg.CaptureAllDNS || false
+	var toServer bool
+	if server {
+		toServer = true
+	} else {
+		toServer = p.dst == 0x0a60000a // 10.96.0.10
+	}
+	// application DNS: captured iff addressed to a captured server (excluded interfaces are left alone; packets sent over
+	// lo from 127.0.0.6 are the proxy's own inbound passthrough connections, not application traffic)
+	passthrough := vp.And(p.src == 0x7f000006, p.outIf == 0)
+	vp.Assert(vp.Implies(vp.And3(isDNS, vp.And(!proxyOwned, !passthrough), !outIfExcluded), toDNS == toServer), "app-dns-captured-iff-addressed-to-a-captured-server")
+	// everything else is decided as without DNS capture
+	term0, port0 := verifEval(table0, "OUTPUT", p, 0)
+	vp.Assert(vp.Implies(!isDNS, vp.And(term == term0, vp.Implies(term, port == port0))), "non-dns-traffic-unaffected-by-dns-capture")
+	// inbound is unaffected
+	a, ap := verifEval(table, "PREROUTING", p, 0)
+	b, bp := verifEval(table0, "PREROUTING", p, 0)
+	vp.Assert(vp.And(a == b, vp.Implies(a, ap == bp)), "inbound-unaffected-by-dns-capture")
 }
 
 // Mutant twin: "excluded ranges are still captured" must be refuted.
